@@ -38,7 +38,7 @@ func init() {
 		Rule: "case = sketch reached by a seeded history incl. cleared-then-refilled stores, negatives with every store kind and arbitrary non-negative float64 weights: ToProto -> proto.Marshal -> Unmarshal -> FromProtoWithStoreProvider(any kind) must give an Equals mapping and bitwise equal zero weight and bin weights (count within 1e-12); EncodeProto bytes must unmarshal to a message proto.Equal to ToProto(); " +
 			"sources are also reweighted and may hold bins whose weight underflowed to zero (which carry nothing to rebuild); hand-built messages mixing binCounts and contiguousBinCounts (dyadic weights where they overlap, indexes also at both ends of the int32 range) must add up, and the rebuilt sketch written again by both writers must describe the same bins; half of the sources are converted again later - after the earlier message was scribbled on and a stream whose mapping is Equals but not bit-identical was decoded into them - and both writers must then describe the mapping the sketch holds. Non-trivial = both stores non-empty and >=1 non-integer weight; distinct = hash of the history.",
 		Cases:     core.Scale(60000, 1500000),
-		Mandatory: []string{"oracle.proto_roundtrips", "oracle.later_message_checks", "oracle.message_read_twice", "later_message.mapping_replaced_by_equal_one", "oracle.stream_equals_message", "oracle.mixed_message_checks", "weights.arbitrary", "source.cleared_then_refilled", "proto.target.dense", "proto.target.sparse", "proto.target.paginated", "proto.target.collapsing_lowest", "proto.target.collapsing_highest", "proto.via_FromProto", "proto.via_paginated_method", "source.underflowed_bins", "source.reweighted", "mixed.extreme_indexes", "oracle.mixed_second_leg", "source.unread_before_writing", "source.wide_span", "oracle.message_is_a_snapshot"},
+		Mandatory: []string{"oracle.proto_roundtrips", "oracle.later_message_checks", "oracle.message_read_twice", "oracle.message_after_an_edited_one", "later_message.mapping_replaced_by_equal_one", "oracle.stream_equals_message", "oracle.mixed_message_checks", "weights.arbitrary", "source.cleared_then_refilled", "proto.target.dense", "proto.target.sparse", "proto.target.paginated", "proto.target.collapsing_lowest", "proto.target.collapsing_highest", "proto.via_FromProto", "proto.via_paginated_method", "source.underflowed_bins", "source.reweighted", "mixed.extreme_indexes", "oracle.mixed_second_leg", "source.unread_before_writing", "source.wide_span", "oracle.message_is_a_snapshot"},
 		Run:       runC09,
 	})
 }
@@ -751,6 +751,39 @@ func runC09(c *core.Ctx) {
 	}
 	if gp, _, _ := mon.ForEachBins(ds); diffBins(srcPos, gp) != "" {
 		c.Failf("proto.store_fromproto", "store.FromProto differs: %s", diffBins(srcPos, gp))
+	}
+	// the stores of the earlier message are edited by their receiver (the natural way to build a message by hand):
+	// later messages of this sketch, and of a brand-new empty sketch, are not affected
+	if r.P(0.5) && !c.Failed() {
+		for _, stp := range []*sketchpb.Store{pb.PositiveValues, pb.NegativeValues} {
+			if stp != nil {
+				stp.BinCounts = map[int32]float64{int32(r.Range(-50, 50)): 3.5}
+				stp.ContiguousBinCounts = append(stp.ContiguousBinCounts, 9)
+				stp.ContiguousBinIndexOffset += 3
+			}
+		}
+		pb.ZeroCount += 2
+		fresh := mon.NewSketch(false, m.M, gen.StoreSpec{Kind: r.Intn(3)})
+		for i, subject := range []*ddsketch.DDSketch{s.P, fresh.P} {
+			var pb3 *sketchpb.DDSketch
+			var buf3 bytes.Buffer
+			if c.Guard("message after an edited one", func() {
+				pb3 = subject.ToProto()
+				subject.EncodeProto(&buf3)
+			}) {
+				return
+			}
+			var streamed3 sketchpb.DDSketch
+			if err := proto.Unmarshal(buf3.Bytes(), &streamed3); err != nil {
+				c.Failf("stream.unmarshal", "the bytes written by EncodeProto do not unmarshal: %v", err)
+				return
+			}
+			c.Count("oracle.message_after_an_edited_one", 1)
+			if !proto.Equal(&streamed3, pb3) {
+				c.Failf("stream.differs_after_edited_message", "after the stores of an earlier message were edited, ToProto() of %s differs from what EncodeProto writes: message %v vs streamed %v", []string{"the same sketch", "a brand-new empty sketch"}[i], shortPB(pb3), shortPB(&streamed3))
+				return
+			}
+		}
 	}
 	if len(srcPos) > 0 && len(srcNeg) > 0 && nonInteger {
 		c.NonTrivial()
